@@ -32,6 +32,8 @@ def axis_rule(rep, prog, rule):
             rep.unk(rule, "x_in_tab", c.at, "closure not a single expression")
         elif k == "X" and kr in ("X", None):
             rep.ok(rule, "x_in_tab", c.at, "entries %s over 0..%s" % (fmt(r)[:100], fmt(rng)[:40]))
+        elif k is None and kr in ("X", None):
+            rep.unk(rule, "x_in_tab", c.at, "axis of the entries %s not determined" % fmt(r)[:100])
         else:
             rep.bad(rule, "x_in_tab", c.at, "column table mixes axes: entries of kind %s (%s) over "
                     "a range of kind %s" % (k, fmt(r)[:140], kr))
@@ -42,6 +44,10 @@ def axis_rule(rep, prog, rule):
         ks = [K.kind(sym.operand(a)) for a in c.args[1:4]]
         if all(k in ("Y",) for k in ks):
             rep.ok(rule, "rows", c.at, "start/step/count all vertical")
+        elif all(k in ("Y", None) for k in ks):
+            # e.g. the values travel in a small struct built by a constructor: not followed
+            rep.unk(rule, "rows", c.at, "iter_rows_with_step(start, step, count): axis of %s not "
+                    "determined" % [fmt(sym.operand(a))[:60] for a, k in zip(c.args[1:4], ks) if k is None])
         else:
             rep.bad(rule, "rows", c.at, "iter_rows_with_step(start, step, count) receives kinds %s: "
                     "%s" % (ks, [fmt(sym.operand(a))[:60] for a in c.args[1:4]]))
